@@ -1174,20 +1174,20 @@ pub fn plan(prop: Prop, tier: &str, seed: u64) -> Result<Plan, String> {
     let mut id = 0;
     // per-property sizing (nodes are cheapest for C17/C03, dearest for C02/C05/C07)
     let (walk_depth, walk_budget, n_games, game_plies): (u32, u64, u64, u32) = match (prop, thorough) {
-        (Prop::C01, false) => (3, 30_000, 1_500, 300),
-        (Prop::C01, true) => (4, 1_500_000, 40_000, 400),
-        (Prop::C02, false) => (3, 12_000, 1_200, 300),
-        (Prop::C02, true) => (4, 400_000, 30_000, 400),
-        (Prop::C03, false) => (2, 3_000, 8_000, 400),
-        (Prop::C03, true) => (3, 60_000, 300_000, 400),
-        (Prop::C04, false) => (3, 20_000, 2_000, 300),
-        (Prop::C04, true) => (4, 600_000, 50_000, 400),
-        (Prop::C05, false) => (3, 6_000, 600, 200),
-        (Prop::C05, true) => (4, 150_000, 12_000, 300),
-        (Prop::C07, false) => (2, 2_500, 500, 200),
-        (Prop::C07, true) => (3, 60_000, 12_000, 300),
-        (Prop::C17, false) => (3, 8_000, 1_000, 300),
-        (Prop::C17, true) => (4, 300_000, 40_000, 400),
+        (Prop::C01, false) => (3, 150_000, 8_000, 300),
+        (Prop::C01, true) => (4, 2_500_000, 120_000, 400),
+        (Prop::C02, false) => (3, 120_000, 8_000, 300),
+        (Prop::C02, true) => (4, 2_000_000, 120_000, 400),
+        (Prop::C03, false) => (3, 40_000, 40_000, 400),
+        (Prop::C03, true) => (4, 600_000, 800_000, 400),
+        (Prop::C04, false) => (3, 150_000, 15_000, 300),
+        (Prop::C04, true) => (4, 2_500_000, 250_000, 400),
+        (Prop::C05, false) => (3, 60_000, 6_000, 250),
+        (Prop::C05, true) => (4, 800_000, 100_000, 300),
+        (Prop::C07, false) => (3, 30_000, 5_000, 250),
+        (Prop::C07, true) => (4, 500_000, 80_000, 300),
+        (Prop::C17, false) => (3, 100_000, 20_000, 300),
+        (Prop::C17, true) => (4, 2_000_000, 400_000, 400),
     };
     for fen in &seeds {
         jobs.push(Job {
